@@ -464,6 +464,10 @@ let do_line w toks : ostring =
   | ["forcecreated"; "F"; _] -> (match w.ss.s_mode with Some MRW -> "OK -" | _ -> "ERR nix::hdf5::H5Error")
   | ["forcecreated"; o; _] -> let oid = recv w (num o) "BSRADTMGPX" in
     show w (run_op w (OTouch (nat_of_int oid, [KBlock; KSection; KSource; KArray; KFrame; KTag; KMTag; KGroup; KProperty; KFeature])))
+  | ["sdata"; o; mt; n] -> let oid = recv w (num o) "A" in
+    show w (run_op w (OSetDataT (nat_of_int oid, dtype_of_string mt, [z_of_string n])))
+  | "adata" :: o :: mt :: axis :: rank :: cnt -> let oid = recv w (num o) "A" in
+    show w (run_op w (OAppendData (nat_of_int oid, dtype_of_string mt, OLst.map z_of_string (ntake cnt (num rank)), nat_of_int (num axis))))
   | ["flush"] -> show w (run_sop w SFlush)
   | c :: _ -> failwith ("bad command " ^ c)
   | [] -> failwith "empty line"
